@@ -166,7 +166,8 @@ func (j *jsonWriter) ByteString(tag int, str []byte) {
 func (j *jsonWriter) DateTime(tag int, date time.Time) {
 	j.encodeAppend(TypeDateTime, tag, func(b []byte) []byte {
 		b = append(b, '"')
-		b = date.AppendFormat(b, time.RFC3339)
+		// Always written in UTC, see xmlWriter.DateTime.
+		b = date.UTC().AppendFormat(b, time.RFC3339)
 		return append(b, '"')
 	})
 }
@@ -534,12 +535,11 @@ func (j *jsonReader) DateTime(tag int) (time.Time, error) {
 		if err != nil {
 			return t, err
 		}
-		t = t.Local()
-		if y := t.Year(); y < 0 || y > 9999 {
+		if y := t.UTC().Year(); y < 0 || y > 9999 {
 			// Outside of what the writers can express in RFC 3339 (a zone offset moved it across the boundary)
 			return time.Time{}, Errorf("date-time is out of bound")
 		}
-		return t, j.Next()
+		return t.Local(), j.Next()
 	default:
 		return time.Time{}, Errorf("invalid date-time value: %q", val)
 	}
